@@ -1447,7 +1447,7 @@ static void MPSreadBounds(MPSInput& mps, LPColSetBase<Rational>& cset, const Nam
                }
 
             // ILOG extension (Integer Bound)
-            if(mps.field1()[1] == 'I')
+            if((mps.field1()[0] == 'L' || mps.field1()[0] == 'U') && mps.field1()[1] == 'I')
             {
                if(intvars != nullptr)
                   intvars->addIdx(idx);
